@@ -880,7 +880,7 @@ func acceptable(m []byte) (bool, string) {
 func TestVerifC42Malformed(t *testing.T) {
 	c := kit.Start(t, "C42", "malformed")
 	defer c.Finish()
-	c.Rule("for decoders brought to a PRNG-chosen state (table size 16..2048, 0..600 prior votes) the next stateful frame is mutated: every strict prefix, every one-byte extension, every value of both header bytes, PRNG single-byte mutations at every offset, forged references (sender/key table ids pointing at empty, evicted, last-valid and out-of-range slots; proposal-window indices beyond the live size; round deltas at lastRnd 0 and MaxUint64); the same prefix/mutation treatment for stateless frames (StatelessDecoder) and for msgpack votes (StatelessEncoder). Each mutant runs against a clone of the state. No panic allowed; a mutant decoded successfully by both layers must yield bytes a fresh StatelessEncoder accepts and reproduces. distinct = (lane, table size, outcome, mutated offset class)")
+	c.Rule("for decoders brought to a PRNG-chosen state (table size 16..2048, 0..600 prior votes) the next stateful frame is mutated: every strict prefix, every one-byte extension, every value of both header bytes, PRNG single-byte mutations at every offset, forged references (sender/key table ids pointing at empty, evicted, last-valid and out-of-range slots; proposal-window indices beyond the live size; round deltas at lastRnd 0 and MaxUint64); the same prefix/mutation treatment for stateless frames (StatelessDecoder) and for msgpack votes (StatelessEncoder). Each mutant runs against a clone of the state. No panic allowed; a mutant decoded successfully by both layers must yield bytes a fresh StatelessEncoder accepts and reproduces. distinct = (lane, table size, outcome, mutated offset class) || [noncanonical, observation only] canonical votes re-encoded non-canonically (rawVote / proposalValue keys permuted, a key repeated, integers widened to a longer msgpack form, explicit zero period/step) are given to the StatelessEncoder and, if accepted, to the stateful pair; the exact round-trip is demanded only of the canonical control of each case; outcomes of the variants are counted and reported as observations")
 	c.Assume("a mutated msgpack vote accepted by the StatelessEncoder is held to the exact round-trip only when it is canonical msgpack (Encode(Decode(x)) == x)")
 
 	ncases := c.N(40, 600)
@@ -1098,6 +1098,9 @@ func TestVerifC42Malformed(t *testing.T) {
 	c.Require("attacked_frames", 20)
 	c.Require("mutants_rejected", 10000)
 	c.Require("mutants_decoded", 500)
+	if c.Violations() < 20 {
+		c42NoncanonicalLane(c)
+	}
 }
 
 // forgeFrame builds a stateful frame from a stateless one, replacing sender / key pairs by the given table
@@ -1168,13 +1171,10 @@ func forgeFrame(c1 []byte, hdr1 byte, sndID, pkID, pk2ID int) []byte {
 // ---------------------------------------------------------------------------------------------
 // non-canonical msgpack (observation only)
 
-// TestVerifC42Noncanonical records what the encoders do with msgpack votes that decode to a valid vote but are not
+// c42NoncanonicalLane records what the encoders do with msgpack votes that decode to a valid vote but are not
 // canonically encoded (map keys permuted or repeated, non-minimal integers). Honest nodes never send those (agreement
 // re-encodes before relaying), so nothing here is a verdict; canonical controls in the same loop are.
-func TestVerifC42Noncanonical(t *testing.T) {
-	c := kit.Start(t, "C42", "noncanonical")
-	defer c.Finish()
-	c.Rule("canonical votes re-encoded non-canonically (rawVote / proposalValue keys permuted, a key repeated, integers widened to a longer msgpack form) are given to the StatelessEncoder and, if accepted, to the stateful pair; the exact round-trip is demanded only of the canonical control of each case; outcomes of the non-canonical variants are counted and reported as observations. distinct = (variant, outcome)")
+func c42NoncanonicalLane(c *kit.Ctx) {
 	n := c.N(300, 5000)
 	obs := map[string]int{}
 	for i := 0; i < n && c.Violations() < 20; i++ {
